@@ -49,6 +49,9 @@ type apiWorld struct {
 	lpsnap     string
 	pshape     map[string]*patchShape
 	lpshape    *patchShape
+	lpatch2    v4.Patch // a legacy patch with a null entry in front of an operation (the legacy DecodePatch does not validate)
+	lpsnap2    string
+	lpshape2   *patchShape
 	sharedOptS *v5.ApplyOptions // the same for the schedule engine's small inputs (limit 12: one application copies 9 bytes)
 	sharedOpt  *v5.ApplyOptions // ONE options value reused by several calls (a call must not leave anything in it)
 	optSnap    v5.ApplyOptions
@@ -76,6 +79,9 @@ var apiTexts = map[string]string{
 	"patchMoveFail": `[{"op":"remove","path":"/nope"},{"op":"move","from":"/a/b","path":"/missing/b"}]`,
 	"patchRmAbsent": `[{"op":"remove","path":"/nope"},{"op":"remove","path":"/a/nope/x"},{"op":"add","path":"/w","value":1},{"op":"remove","path":"/w"}]`,
 	"patchBigVal":   `[{"op":"add","path":"/bigv","value":{"member00":1,"list":[],"pad":"` + strings.Repeat("v", 1100) + `"}},{"op":"add","path":"/bigl","value":[` + strings.Repeat("1,", 600) + `1]},{"op":"add","path":"/bigv/extra","value":1},{"op":"add","path":"/bigv/list/-","value":"end"},{"op":"add","path":"/bigl/-","value":2},{"op":"remove","path":"/bigv/member00"}]`,
+	"docEsc":        `{"caf\u00e9":"\u00e9\ud83d\ude00 \u00fc","a\u002fb":[1,"\u00df"],"k\u0039":{"\u00e0":null}}`,
+	"patchEsc":      `[{"op":"add","path":"/caf\u00e9x","value":"\u00fc\u00df"},{"op":"test","path":"/a~1b/0","value":1},{"op":"copy","from":"/k9","path":"/c\u00f9"},{"op":"test","path":"/caf\u00e9","value":"\u00e9\ud83d\ude00 \u00fc"}]`,
+	"patch64":       `[{"op":"add","path":"/n","value":{"v":1}},{"op":"test","path":"/n/v","value":1}]`,
 	"patchBad":      `[{"op":"add","path":"/w","value":1},`,
 	"patchInv":      `[{"op":"add","path":"/w"}]`,
 	"patchObj":      `{}`,
@@ -128,6 +134,8 @@ func newAPIWorld() *apiWorld {
 		sb.WriteString(`","n":` + fmt.Sprint(n) + tail)
 		return sb.String()
 	}
+	w.bufs["doc64K"] = []byte(`{"a":[` + strings.Repeat(`{"k":"v<"},`, 6500) + `0],"z":1}`) // about 78 KB
+	w.snaps["doc64K"] = string(w.bufs["doc64K"])
 	for k, t := range map[string]string{"bigA": big(1, "}"), "bigB": big(2, "}"), "bigBad": big(1, ",}")} {
 		w.bufs[k], w.snaps[k] = []byte(t), t
 	}
@@ -235,6 +243,16 @@ func newAPIWorld() *apiWorld {
 		{"PbigVal.Apply(docObj) [values beyond 1 KiB that later operations walk into]", true, func(w *apiWorld) ([]byte, error) {
 			return w.patches["patchBigVal"].Apply(B("docObj"))
 		}},
+		{"Pesc.Apply(docEsc) [\\u escapes in names, values and pointers]", true, func(w *apiWorld) ([]byte, error) { return w.patches["patchEsc"].Apply(B("docEsc")) }},
+		{"P64.ApplyIndentWithOptions(doc64K, compact, SHARED opts)", true, func(w *apiWorld) ([]byte, error) {
+			return w.patches["patch64"].ApplyIndentWithOptions(B("doc64K"), "", w.sharedOpt)
+		}},
+		{"P64.ApplyIndentWithOptions(doc64K, two blanks, SHARED opts)", true, func(w *apiWorld) ([]byte, error) {
+			return w.patches["patch64"].ApplyIndentWithOptions(B("doc64K"), "  ", w.sharedOpt)
+		}},
+		{"P64.ApplyIndentWithOptions(doc64K, tab, SHARED opts)", true, func(w *apiWorld) ([]byte, error) {
+			return w.patches["patch64"].ApplyIndentWithOptions(B("doc64K"), "\t", w.sharedOpt)
+		}},
 		// rejected inputs with very many open containers (the scanner keeps / drops its stack)
 		{"Equal(deepOpen,docObj) [2000 unclosed brackets]", true, func(w *apiWorld) ([]byte, error) { return boolBytes(v5.Equal(B("deepOpen"), B("docObj"))), nil }},
 		{"P.Apply(deepOver) [nesting 10001]", true, func(w *apiWorld) ([]byte, error) { return w.patches["patchOK"].Apply(B("deepOver")) }},
@@ -266,10 +284,11 @@ func newAPIWorld() *apiWorld {
 		{"CreateMergePatch(bigA,bigB) [5 KB documents]", true, func(w *apiWorld) ([]byte, error) { return v5.CreateMergePatch(B("bigA"), B("bigB")) }},
 		{"CreateMergePatch(bigBad,bigB) [5 KB, first malformed]", true, func(w *apiWorld) ([]byte, error) { return v5.CreateMergePatch(B("bigBad"), B("bigB")) }},
 		{"legacy Lp.Apply(docObj)", false, func(w *apiWorld) ([]byte, error) { return w.lpatch.Apply(B("docObj")) }},
+		{"legacy LpNull.Apply(docObj) [a null entry in front of an operation]", false, func(w *apiWorld) ([]byte, error) { return w.lpatch2.Apply(B("docObj")) }},
 		{"legacy MergePatch(docObj,mp1)", false, func(w *apiWorld) ([]byte, error) { return v4.MergePatch(B("docObj"), B("mp1")) }},
 	}
 	for i, c := range w.calls {
-		if !strings.Contains(c.Name, "docS") && !strings.Contains(c.Name, "patchS") && !strings.Contains(c.Name, "eqS1") && !strings.HasPrefix(c.Name, "Ps.") && !strings.HasPrefix(c.Name, "ProotS.") && !strings.HasPrefix(c.Name, "CreateMergePatch(big") && !strings.HasPrefix(c.Name, "PbigS.") {
+		if !strings.Contains(c.Name, "docS") && !strings.Contains(c.Name, "patchS") && !strings.Contains(c.Name, "eqS1") && !strings.HasPrefix(c.Name, "Ps.") && !strings.HasPrefix(c.Name, "ProotS.") && !strings.HasPrefix(c.Name, "CreateMergePatch(big") && !strings.HasPrefix(c.Name, "PbigS.") && !strings.HasPrefix(c.Name, "P64.") {
 			w.menu = append(w.menu, i)
 		}
 	}
@@ -339,7 +358,7 @@ func decodeOnly(b []byte) ([]byte, error) {
 }
 
 func (w *apiWorld) decodePatches() {
-	for _, k := range []string{"patchOK", "patchArr", "patchTst", "patchNeg", "patchCopyFail", "patchCopyBig", "patchBig", "patchDeep", "patchWide", "patchS", "patchTstS", "rootPatchS", "patchMoveFail", "patchRmAbsent", "patchBigVal"} {
+	for _, k := range []string{"patchOK", "patchArr", "patchTst", "patchNeg", "patchCopyFail", "patchCopyBig", "patchBig", "patchDeep", "patchWide", "patchS", "patchTstS", "rootPatchS", "patchMoveFail", "patchRmAbsent", "patchBigVal", "patchEsc", "patch64"} {
 		p, err := v5.DecodePatch([]byte(apiTexts[k])) // from a private copy: the Patch must not alias a shared buffer
 		if err != nil {
 			panic("harness patch " + k + ": " + err.Error())
@@ -372,6 +391,23 @@ func (w *apiWorld) decodePatches() {
 	}
 	w.lpatch, w.lpsnap = lp, dumpValue(lp)
 	w.lpshape = shapeOf(len(lp), func(i int, f func(k string, p unsafe.Pointer, b []byte)) {
+		for kk, vv := range lp[i] {
+			if vv == nil {
+				f(kk, nil, nil)
+			} else {
+				f(kk, unsafe.Pointer(vv), *vv)
+			}
+		}
+	})
+	lp2, err := v4.DecodePatch([]byte(`[null,{"op":"add","path":"/a/b/-","value":1},null]`))
+	if err != nil {
+		panic(err)
+	}
+	w.lpatch2, w.lpsnap2, w.lpshape2 = lp2, dumpValue(lp2), legacyShape(lp2)
+}
+
+func legacyShape(lp v4.Patch) *patchShape {
+	return shapeOf(len(lp), func(i int, f func(k string, p unsafe.Pointer, b []byte)) {
 		for kk, vv := range lp[i] {
 			if vv == nil {
 				f(kk, nil, nil)
@@ -465,6 +501,10 @@ func (w *apiWorld) inputsIntact() []string {
 		bad = append(bad, "shared legacy Patch was modified: "+w.lpsnap+" -> "+dumpValue(w.lpatch))
 		redecode = true
 	}
+	if !w.lpshape2.sameLegacy(w.lpatch2) {
+		bad = append(bad, "shared legacy Patch (with null entries) was modified: "+w.lpsnap2+" -> "+dumpValue(w.lpatch2))
+		redecode = true
+	}
 	if redecode {
 		w.decodePatches()
 	}
@@ -528,4 +568,54 @@ func (s *patchShape) sameLegacy(p v4.Patch) bool {
 		}
 	}
 	return true
+}
+
+// decodeBufferReuse: a caller reads patch A into a buffer, decodes it, later refills THE SAME buffer with
+// patch B (same length) and decodes that too. Patch A must go on behaving as patch A: a decoded Patch that
+// aliases the decode buffer changes under the caller's feet although no library call was given it to modify.
+// Returns one line per deviation.
+func decodeBufferReuse() []string {
+	pad := func(s string, n int) string { return s + strings.Repeat(" ", n-len(s)) }
+	pairs := [][2]string{
+		{`[{"op":"add","path":"/a","value":{"k":[1,2,3]}},{"op":"add","path":"/n","value":[true]}]`, `[{"op":"add","path":"/a","value":{"z":[9,9,9]}},{"op":"add","path":"/n","value":[null]}]`},
+		{`[{"op":"add","path":"/s","value":"text"},{"op":"test","path":"/s","value":"text"}]`, `[{"op":"add","path":"/t","value":"TEXT"},{"op":"test","path":"/t","value":"TEXT"}]`},
+		{`[{"op":"add","path":"/q","value":12345},{"op":"copy","from":"/q","path":"/r"}]`, `[{"op":"add","path":"/w","value":99999},{"op":"move","from":"/w","path":"/r"}]`},
+		{`[{"op":"add","path":"/big","value":{"pad":"` + strings.Repeat("a", 1200) + `"}},{"op":"add","path":"/big/x","value":1}]`, `[{"op":"add","path":"/BIG","value":{"PAD":"` + strings.Repeat("b", 1200) + `"}},{"op":"add","path":"/BIG/y","value":2}]`},
+	}
+	doc := []byte(`{"x":0}`)
+	var bad []string
+	for _, pr := range pairs {
+		n := len(pr[0])
+		if len(pr[1]) > n {
+			n = len(pr[1])
+		}
+		a, b := pad(pr[0], n), pad(pr[1], n)
+		for _, lib := range []string{"v5", "legacy"} {
+			apply := func(text []byte) (func() string, error) {
+				if lib == "v5" {
+					p, err := v5.DecodePatch(text)
+					return func() string { o, e := p.Apply(doc); return fmt.Sprintf("%s|%v", o, e) }, err
+				}
+				p, err := v4.DecodePatch(text)
+				return func() string { o, e := p.Apply(doc); return fmt.Sprintf("%s|%v", o, e) }, err
+			}
+			want, err := apply([]byte(a)) // a private buffer nobody touches again
+			if err != nil {
+				bad = append(bad, "harness: "+err.Error())
+				continue
+			}
+			buf := []byte(a)
+			got, _ := apply(buf)
+			first := got()
+			copy(buf, b)
+			if _, err := apply(buf); err != nil {
+				bad = append(bad, "harness: "+err.Error())
+			}
+			second := got()
+			if first != want() || second != want() {
+				bad = append(bad, fmt.Sprintf("[%s] patch %s decoded from a buffer the caller later refilled with %s: before the refill Apply gives %s, after it %s; decoded from a private buffer %s", lib, clip(pr[0], 90), clip(pr[1], 60), clip(first, 120), clip(second, 120), clip(want(), 120)))
+			}
+		}
+	}
+	return bad
 }
